@@ -399,12 +399,15 @@ func bufT(fn, coq string, params []string, result, final string, eff bool) *targ
 		opaque: map[string]string{"io.EOF": "EEOF", "errUnreadByte": "EUnreadByte", "io.ErrShortWrite": "EShortWrite", "ErrTooLarge": "p_toolarge", "errNegativeRead": "p_negread"},
 		params: append([]string{"(s_buf : gslice)", "(s_off s_lastRead : Z)"}, params...), result: result, final: final,
 		calls: map[string]callSpec{
-			"*PrintCtx.empty":         {pure: "buf_empty s_buf s_off s_lastRead"},
-			"*PrintCtx.Len":           {pure: "buf_len s_buf s_off s_lastRead"},
-			"*PrintCtx.Reset":         {state: "buf_reset s_buf s_off s_lastRead", bres: true, sub: []string{"s_buf", "s_off", "s_lastRead"}},
-			"errors.New":              {pure: "EUnreadRune"},
-			"utf8.DecodeRune":         {res: "decode_rune_z (sl_bytes %0)"},
-			"utf8.DecodeRuneInString": {res: "decode_rune_z %0"},
+			"*PrintCtx.empty":            {pure: "buf_empty s_buf s_off s_lastRead"},
+			"*PrintCtx.Len":              {pure: "buf_len s_buf s_off s_lastRead"},
+			"*PrintCtx.Reset":            {state: "buf_reset s_buf s_off s_lastRead", bres: true, sub: []string{"s_buf", "s_off", "s_lastRead"}},
+			"errors.New":                 {pure: "EUnreadRune"},
+			"*PrintCtx.tryGrowByReslice": {state: "buf_try_grow s_buf s_off s_lastRead %0", bres: true, sub: []string{"s_buf", "s_off", "s_lastRead"}},
+			"*PrintCtx.grow":             {state: "buf_grow_int s_buf s_off s_lastRead f_isnil f_growSlice %0", bres: true, sub: []string{"s_buf", "s_off", "s_lastRead"}},
+			"growSlice":                  {state: "f_growSlice %0 %1", bres: true},
+			"utf8.DecodeRune":            {res: "decode_rune_z (sl_bytes %0)"},
+			"utf8.DecodeRuneInString":    {res: "decode_rune_z %0"},
 		}}
 	if eff {
 		t.effects = []string{"s_buf", "s_off", "s_lastRead"}
@@ -418,6 +421,9 @@ func bufT(fn, coq string, params []string, result, final string, eff bool) *targ
 			st = "(s_buf, s_off, s_lastRead, tr_)"
 			t.calls["io.Writer.Write"] = callSpec{res: "(w_m, w_e)", ev: "sl_bytes %0"}
 			t.nilTest = map[string]string{"err": "err_is_enil"}
+		}
+		if fn == "grow" {
+			t.nilTest = map[string]string{"gslice": "f_isnil"}
 		}
 		t.panicT, t.panicFmt, t.okfmt = "BRange "+st, "BPanic %s "+st, "BOk (%s) %s"
 		t.final = "BOk tt " + st
